@@ -75,6 +75,8 @@ type Exec struct {
 	specErrs []string
 	pureMemo map[string]pureMemo
 	lastCallName string
+	assumedClauses []string
+	curLoop *Loop
 	argTypes map[string]types.Type
 	reassuming bool
 	nscope int
@@ -127,8 +129,11 @@ func (x *Exec) oblige(st *State, kind, label string, goal *Term, pos token.Pos, 
 		x.obs = append(x.obs, &Obligation{Name: name, Fn: relName(x.fn), Kind: kind, Pos: x.P.pos(pos), Descr: descr,
 			Goal: True, Trail: strings.Join(st.trail, " ")})
 	}
-	// after an assertion the fact may be assumed on the rest of the path
-	st.add(goal)
+	// after an assertion the fact may be assumed on the rest of the path (quantified facts are
+	// left out: they cost the solver more than they help)
+	if !strings.Contains(goal.Key(), "(forall ") {
+		st.add(goal)
+	}
 }
 
 // ---------------------------------------------------------------------------
@@ -497,6 +502,13 @@ func (x *Exec) load(st *State, a *Addr) *Term {
 }
 
 func (x *Exec) store(st *State, a *Addr, v *Term) {
+	if a.Root == rField && a.Key == "F$Bar$priority" && len(a.Path) == 0 {
+		// heap model ghost: a direct priority write may break the heap order; it is repairable
+		// by Fix only while this bar is the single out-of-place element
+		hord0 := st.ghostBool(ghHord)
+		st.ghost[ghHdirty] = Ite(hord0, a.Base, IntLit(-1))
+		st.ghost[ghHord] = False
+	}
 	if len(a.Path) == 0 {
 		x.rootSet(st, a, v)
 		return
@@ -712,13 +724,13 @@ func (x *Exec) havoc(st *State, keys map[string]bool) {
 			st.bump["#spawnver"]++
 		case strings.HasPrefix(k, ghSpawn+"$"):
 			for _, g := range []string{k, ghSpawn} {
-				if old, ok := st.ghost[g]; ok {
-					st.ghost[g] = x.freshVar(g, SInt)
-					st.add(Ge(st.ghost[g], old))
-				} else {
-					st.bump[g]++
-				}
+				old := st.ghostInt(g)
+				st.ghost[g] = x.freshVar(g, SInt)
+				st.add(Ge(st.ghost[g], old))
 			}
+		case k == ghHord || k == ghHbound || k == ghHdirty:
+			delete(st.ghost, k)
+			st.bump[k]++
 		case k == ghLast:
 			for h := range st.heap {
 				if strings.HasPrefix(h, ghLast) {
@@ -740,6 +752,13 @@ func (x *Exec) havoc(st *State, keys map[string]bool) {
 			x.closedChain[nw.Key()] = old
 		case k == ghSent || k == ghRecvd:
 			st.heap[k] = x.freshVar(k, heapSorts[k])
+			if k == ghRecvd {
+				for h, s := range heapSorts {
+					if strings.HasPrefix(h, "#lrecv$") {
+						st.heap[h] = x.freshVar(h, s)
+					}
+				}
+			}
 		default:
 			s, ok := heapSorts[k]
 			if !ok {
